@@ -22,13 +22,18 @@ import (
 	ethcommon "github.com/ethereum/go-ethereum/common"
 	"github.com/ethereum/go-ethereum/core/types"
 	"github.com/polynetwork/poly/common"
+	ptypes "github.com/polynetwork/poly/core/types"
+	"github.com/polynetwork/poly/native"
 	"github.com/polynetwork/poly/native/service/governance/node_manager"
 	scom "github.com/polynetwork/poly/native/service/header_sync/common"
 	"github.com/polynetwork/poly/native/storage"
 	"github.com/polynetwork/poly/zzsym"
 )
 
-const zzChain = uint64(2)
+const (
+	zzChain     = uint64(2)
+	zzBlockTime = uint32(1700000000)
+)
 
 var (
 	zzSubmitted []Header                  // headers named by the JSON token {'H', i}
@@ -121,7 +126,13 @@ func zzSyncOne(db *storage.CacheDB, token byte) error {
 	p := &scom.SyncBlockHeaderParam{ChainID: zzChain, Headers: [][]byte{{'H', token}}}
 	sink := common.NewZeroCopySink(nil)
 	p.Serialization(sink)
-	return NewETHHandler().SyncBlockHeader(zzNative(db, sink.Bytes()))
+	// the transaction runs in a block with timestamp zzBlockTime: a repaired contract compares header.Time with
+	// NativeService.GetTime() and then still reaches all three outcomes below
+	ns, err := native.NewNativeService(db, &ptypes.Transaction{}, zzBlockTime, 100, common.Uint256{}, 0, sink.Bytes(), false)
+	if err != nil {
+		panic("zz: NewNativeService")
+	}
+	return NewETHHandler().SyncBlockHeader(ns)
 }
 
 // Every header timestamp: refused as "future block", refused as not after the parent, or accepted.
